@@ -1221,8 +1221,15 @@ func (c *compiler) Stmt(stmt ast.Stmt) {
 	case *ast.Pass:
 		// Do nothing
 	case *ast.Break:
-		l := c.loops.Top()
-		if l == nil {
+		// There must be a loop among the enclosing blocks of this code
+		// object: a try, with or finally block alone is none
+		inLoop := false
+		for i := range c.loops {
+			if c.loops[i].Type == loopLoop {
+				inLoop = true
+			}
+		}
+		if !inLoop {
 			c.panicSyntaxErrorf(node, "'break' outside loop")
 		}
 		c.Op(vm.BREAK_LOOP)
